@@ -61,6 +61,16 @@ class QWorld:
 				p = (self.qdir / 'sub' / name) if sub else (self.qdir / name)
 				write_fasta(p, q['contigs'], width=rng.choice([0, 60, 80]), eol=rng.choice([b'\n', b'\r\n']), gz=gz)
 				self.files.append(dict(path=p, rel=('sub/' + name) if sub else name, label=_cli.expected_label(name), qi=qi))
+		# DIFFERENT genomes whose derived labels collide (same basename in another directory / another extension)
+		self.collide = []
+		nq = len(self.w.queries)
+		if nq >= 2:
+			picks = rng.sample(range(nq), min(3, nq))
+			for (qi, (rel, gz)) in zip(picks, [('collide.fasta', False), ('sub/collide.fasta', False), ('collide.fna.gz', True)]):
+				p = self.qdir / rel
+				write_fasta(p, self.w.queries[qi]['contigs'], gz=gz)
+				f = dict(path=p, rel=rel, label='collide', qi=qi)
+				self.files.append(f); self.collide.append(f)
 		# a second file with the same label as an existing one (duplicate labels)
 		f0 = self.files[0]
 		p = self.qdir / 'sub' / os.path.basename(f0['path']) if f0['path'].parent == self.qdir else self.qdir / os.path.basename(f0['path'])
@@ -158,7 +168,7 @@ def run_batch(sh, ctx):
 					if code != 0:
 						ctx.violation('command-fails', f'alone run exited {code}: {se[-200:]} {exc}', dict(file=str(f['path'])))
 						continue
-					rows = parse_output(fmt, out.read_text())
+					rows = parse_output(fmt, open(out, newline='').read())
 					if len(rows) == 1:
 						alone[(fmt, strict, qi)] = rows[0][1]['raw']
 						compare(ctx, qw, fmt, strict, rows, [f['label']], [qi], dict(alone=True, fmt=fmt, file=f['rel']), f'alone {fmt}', {})
@@ -168,6 +178,9 @@ def run_batch(sh, ctx):
 		for ci in range(sh['ncmds']):
 			nb = rng.choice([1, 2, 3, 5, 8, 15, 30])
 			batch = [rng.choice(qw.files) for _ in range(nb)] if rng.random() < 0.5 else rng.sample(qw.files, min(nb, len(qw.files)))
+			if qw.collide and rng.random() < 0.35:
+				batch = batch + rng.sample(qw.collide, rng.randint(2, len(qw.collide)))
+				ctx.count('batches_with_label_collision_of_different_genomes')
 			order = rng.choice(['given', 'reversed', 'shuffled'])
 			if order == 'reversed':
 				batch = batch[::-1]
@@ -224,7 +237,7 @@ def run_batch(sh, ctx):
 				ctx.violation('command-fails', f'gambit query exited {code}: {se[-200:]} {exc}', w_)
 				continue
 			try:
-				rows = parse_output(fmt, out.read_text())
+				rows = parse_output(fmt, open(out, newline='').read())
 			except Exception as e:
 				ctx.violation('output-unparseable', f'{fmt} output cannot be parsed: {type(e).__name__}: {e}', w_)
 				continue
@@ -266,7 +279,7 @@ def run_console(sh, ctx):
 		if code != 0:
 			ctx.violation('command-fails', f'console script exited {code}: {se[-300:]}', w_)
 			continue
-		text = so if to_stdout else out.read_text()
+		text = so if to_stdout else open(out, newline='').read()
 		try:
 			rows = parse_output(fmt, text)
 		except Exception as e:
@@ -282,7 +295,7 @@ def run_shard(sh, ctx):
 def finalize(merged, tier, seed, inconclusive):
 	c = merged['counters']
 	need = ['alone_runs', 'channel:positional', 'channel:listfile-rel', 'channel:listfile-abs', 'channel:sigfile-create', 'channel:sigfile-oracle', 'format:csv', 'format:json', 'format:archive',
-	        'format:archive/strict', 'cores:16', 'cores:None', 'progress:True', 'batches_with_duplicate_labels', 'batches_with_same_genome_twice', 'api_chunk_runs', 'console_script_runs']
+	        'format:archive/strict', 'cores:16', 'cores:None', 'progress:True', 'batches_with_duplicate_labels', 'batches_with_same_genome_twice', 'batches_with_label_collision_of_different_genomes', 'api_chunk_runs', 'console_script_runs']
 	for n in need:
 		if c.get(n, 0) == 0:
 			inconclusive.append(f'class never observed: {n}')
